@@ -46,7 +46,7 @@ var c16Inline = map[string]string{
 	"@xa": "package a\n\nimport (\n\t\"fmt\"\n\n\t\"a.b/x\"\n)\n\nfunc f() {\n\tfmt.Println(x.V, x.K)\n\tx.F()\n}\n",
 	"@xb": "package a\n\nimport \"c.d/x\"\n\nvar v = x.T{F: x.K}\n\nfunc g() x.T { return x.F(v) }\n",
 }
-var c16MapScenarios = []string{"newpackage-import-error", "imports-added-conflict", "imports-aliases-override", "imports-removed", "package-decorate-print", "newpackage", "goast-roundtrip", "extras-bytes", "clone-package"}
+var c16MapScenarios = []string{"imports-alias-collision", "imports-two-specs-one-alias", "newpackage-import-error", "imports-added-conflict", "imports-aliases-override", "imports-removed", "package-decorate-print", "newpackage", "goast-roundtrip", "extras-bytes", "clone-package"}
 
 func init() {
 	core.Register(&core.Prop{
@@ -302,6 +302,11 @@ func c16MapBody(sc string) func() string {
 			return c16Restore(c07Case{Used: 0b01111, Shape: 0, OvPath: -1, LocalIs: -1})
 		case "imports-aliases-override":
 			return c16Restore(c07Case{Used: 0b11101, Shape: 6, OvPath: 1, Ov: "zz", LocalIs: -1})
+		case "imports-alias-collision":
+			// the override asks for an alias that another import of the source already uses
+			return c16Restore(c07Case{Used: 0b01011, Shape: 6, OvPath: 1, Ov: "f", LocalIs: -1})
+		case "imports-two-specs-one-alias":
+			return c16RestoreSrc("import (\n\tq \"fmt\"\n\tq \"io\"\n)\n", 0b00011)
 		case "imports-removed":
 			return c16Restore(c07Case{Used: 0b00001, Shape: 7, OvPath: -1, LocalIs: -1})
 		case "package-decorate-print":
@@ -366,6 +371,25 @@ func c16MapBody(sc string) func() string {
 		}
 		panic("unknown scenario " + sc)
 	}
+}
+
+// c16RestoreSrc restores hand-made references to the used paths in a file with the given import block.
+func c16RestoreSrc(imports string, used int) string {
+	f, err := decorator.Parse("package a\n\n" + imports)
+	if err != nil {
+		return "error: " + err.Error()
+	}
+	for i, p := range c07Paths {
+		if used&(1<<i) != 0 {
+			f.Decls = append(f.Decls, &dst.GenDecl{Tok: token.VAR, Specs: []dst.Spec{&dst.ValueSpec{
+				Names: []*dst.Ident{dst.NewIdent(fmt.Sprintf("v%d", i))}, Type: &dst.Ident{Name: fmt.Sprintf("T%d", i), Path: p}}}})
+		}
+	}
+	var buf bytes.Buffer
+	if err := decorator.NewRestorerWithImports("example.com/unrelated", simple.New(c07Names)).Fprint(&buf, f); err != nil {
+		return "error: " + err.Error()
+	}
+	return buf.String()
 }
 
 func c16Restore(cs c07Case) string {
